@@ -111,4 +111,18 @@ CLAIMS = {
               "Trusted: range semantics; DynamicRepetitionStrategy callables are user code."),
         technique="static analysis: ordered-effect (typestate) check on feasible paths, affine comparison of loop bounds, syntactic freshness of the per-iteration copy",
     ),
+    "C07": dict(
+        text=("Decides the index computation for all interleavings of qubits and tags from the code of the scan: "
+              "AcquisitionRegistry.get_registry_at is tabulated over the complete case split (is acquisition, key match, same qubit) -- counters "
+              "start at 0, range over the whole listing of the reference circuit, the match returns the counters BEFORE any increment and maps "
+              "them to the right fields, the qubit counter grows exactly for same-qubit acquisitions and the circuit counter for every "
+              "acquisition; accessors read the right field; both filter variants keep exactly the acquisitions with the requested qubit / qubit "
+              "and tag (Boolean equivalence) and append acquisition_index; identifiers carry a counter-fed unique id and are built from the "
+              "operation's own qubit and tag; every place that binds a circuit's structure binds its registry to that structure; copies "
+              "re-target through the lookup and sub-circuits take the copying path. Hence circuit-level indices are 0..N-1 and per-qubit "
+              "indices 0..n_q-1 in listing order."),
+        note=("Not decided: 'indices increase with measurement start time' (a timing fact; follows from C01/C02 for implicitly sequenced "
+              "circuits). Position in the exported record = listing order is C08.S2. Trusted: dataclass field semantics."),
+        technique="static analysis: loop summary by exhaustive case table over extracted atoms, Boolean equivalence of filters, typed store pairing",
+    ),
 }
